@@ -707,8 +707,9 @@ def bnorm(b, F):
             n = hi - lo
             if (n.is_const() and n.c <= 0) or (not n.is_const() and F.prove_eq(n)):
                 continue
-            if n.is_const() and n.c == 1:
-                for q in binst(t, var, lo, F):
+            if (n.is_const() and n.c == 1) or (not n.is_const() and n.degree() <= 1 and F.prove_eq(n - 1)):
+                # a map over exactly one index is its single element
+                for q in bnorm(binst(t, var, lo, F), F):
                     out.append(q)
                 continue
             # ite on boundary index inside template -> split
